@@ -22,10 +22,35 @@ class Model(EngineValue):
 
 
 class ModelHost(EngineValue):
-    """Base for engine-side objects that interpreted code may hold (ghost files...)."""
+    """Base for engine-side objects that interpreted code may hold (ghost files...).
+    Whatever a contract's ghost object does not model is outside the subset (undecided), never a crash of the checker."""
 
     def truth_term(self, it):
         return True
+
+    def _unmodelled(self, what):
+        raise OutOfSubset(f"{what} of the ghost object {type(self).__name__} is not modelled by this contract")
+
+    def getattr(self, it, name):
+        self._unmodelled(f"attribute {name!r}")
+
+    def len(self, it):
+        self._unmodelled("len()")
+
+    def getitem(self, it, k):
+        self._unmodelled("subscript")
+
+    def setitem(self, it, k, v):
+        self._unmodelled("item assignment")
+
+    def delitem(self, it, k):
+        self._unmodelled("item deletion")
+
+    def contains(self, it, x):
+        self._unmodelled("membership test")
+
+    def iterate(self, it):
+        self._unmodelled("iteration")
 
 
 def _raise(exc):
@@ -1319,6 +1344,18 @@ def m_hasattr(it, o, name):
         if issubclass(e.cls, AttributeError):
             return False
         raise
+
+
+@model(callable)
+def m_callable(it, v):
+    from .interp import Closure, BoundMethod
+    if isinstance(v, (Closure, BoundMethod, Model)):
+        return True
+    if isinstance(v, (Sym, MutSet, SObj)):
+        if isinstance(v, SObj):
+            return inspect.getattr_static(v.cls, "__call__", None) is not None
+        return False
+    return callable(v)
 
 
 @model(setattr, object.__setattr__)
